@@ -75,6 +75,15 @@ def avgText (nres nseq : Nat) : String :=
 def fracText (cnt nres : Nat) : String :=
   fmtFloat (Float.ofNat cnt / Float.ofNat nres) 4
 
+/-- `esl_composition_SW50()`: Swiss-Prot 50.8 amino acid frequencies (the background of the log-odds column of `-c`) -/
+def sw50 : List Float :=
+  [0.0787945, 0.0151600, 0.0535222, 0.0668298, 0.0397062, 0.0695071, 0.0229198, 0.0590092, 0.0594422, 0.0963728,
+   0.0237718, 0.0414386, 0.0482904, 0.0395639, 0.0540978, 0.0683364, 0.0540687, 0.0673417, 0.0114135, 0.0304133]
+
+/-- `log((count/nres)/bg) * eslCONST_LOG2R` printed with `%8.4f` -/
+def logOddsText (cnt nres : Nat) (bg : Float) : String :=
+  padLeft 8 (fmtFloatSigned (Float.log ((Float.ofNat cnt / Float.ofNat nres) / bg) * 1.44269504088896341) 4)
+
 def seqstatText (o : SeqstatOpts) (a : Abc) (fmtName : String) (recs : List Rec) : String :=
   let st := stats (recs.map (·.seq.length))
   let K := a.K
@@ -107,7 +116,14 @@ def seqstatText (o : SeqstatOpts) (a : Abc) (fmtName : String) (recs : List Rec)
         "\nResidue composition:\n" ++
         String.join ((List.range syms.length).map fun x =>
           let n := tot.getD x 0
-          if x < K || n > 0 then
+          if a = .amino then
+            if x < K then
+              "residue: " ++ String.singleton (syms.getD x '?') ++ "   " ++ padLeft 10 (natS n) ++ "  " ++
+                padLeft 6 (fracText n st.nres) ++ "  " ++ logOddsText n st.nres (sw50.getD x 1.0) ++ "\n"
+            else if n > 0 then
+              "residue: " ++ String.singleton (syms.getD x '?') ++ "   " ++ padLeft 10 (natS n) ++ "  " ++ padLeft 6 (fracText n st.nres) ++ "\n"
+            else ""
+          else if x < K || n > 0 then
             "residue: " ++ String.singleton (syms.getD x '?') ++ "   " ++ padLeft 10 (natS n) ++ "  " ++ fracText n st.nres ++ "\n"
           else "")
       else ""
